@@ -564,6 +564,9 @@ def run_one(spec, prefix, record=False):
             viol.append(("%s:horizon" % name, "execution finishes within the step horizon", "finish", "horizon"))
         else:
             viol = finish(ex)
+            lk = getattr(getattr(w, "lookup", None), "_mutex", None)
+            if lk is not None and lk.locked():
+                viol.append(("%s:lock-held-at-quiescence" % name, "no thread is left blocked: the lookup lock is free when every call has returned", "released", "held by thread %r" % (lk.holder,)))
         return ex, viol
     finally:
         w.close()
